@@ -38,7 +38,7 @@ use sos_core::{
         FileEvent, WriteEvent,
     },
     AccountId, ExternalFile, ExternalFileName, Origin, SecretId, SecretPath,
-    UtcDateTime, VaultCommit, VaultEntry, VaultFlags, VaultId,
+    UtcDateTime, VaultCommit, VaultEntry, VaultFlags,
 };
 use sos_database::entity::{
     AccountEntity, AccountRow, EventEntity, EventRecordRow, FolderEntity,
@@ -119,7 +119,6 @@ const N013: &[&str] = &["0", "1", "3"];
 const N013M: &[&str] = &["0", "1", "3", "many"];
 const LOG6: &[&str] =
     &["Identity", "Account", "Device", "Files", "Folder", "FolderNil"];
-const FLAGS4: &[&str] = &["empty", "one", "high", "all"];
 const FLAGS3: &[&str] = &["empty", "one", "all"];
 const FLAGS2: &[&str] = &["empty", "all"];
 const FLAG_NAMES: &[&str] = &[
@@ -211,7 +210,7 @@ fn schema() -> Vec<Entry> {
                     ],
                 ),
                 ("name", TEXT4),
-                ("flags", FLAGS4),
+                ("flags", FLAGS3),
                 ("payload", BLOB3),
                 ("nonce", NONCE2),
                 ("id", ID3),
@@ -320,7 +319,11 @@ fn schema() -> Vec<Entry> {
                 ("name", &["ascii", "unicode"]),
             ],
         ),
-        ent("VaultMeta", "binary", &[("date", TIMES4), ("description", TEXT4)]),
+        ent(
+            "VaultMeta",
+            "binary",
+            &[("date", &["epoch", "nanos", "max", "year0"]), ("description", TEXT4)],
+        ),
         ent(
             "SecretMeta",
             "binary",
@@ -339,8 +342,8 @@ fn schema() -> Vec<Entry> {
                 ("urn", &["none", "simple", "rqf", "upper"]),
                 ("owner_id", OPT3),
                 ("flags", &["empty", "verify"]),
-                ("tags", N013M),
-                ("date_created", TIMES5),
+                ("tags", N013),
+                ("date_created", TIMES4),
                 ("last_updated", TIMES3),
             ],
         ),
@@ -444,7 +447,7 @@ fn schema() -> Vec<Entry> {
             &[
                 ("algorithm", &["SHA1", "SHA256", "SHA512"]),
                 ("digits", &["6", "8"]),
-                ("skew", &["0", "1", "255"]),
+                ("skew", &["1", "0"]),
                 ("step", &["1", "30", "max"]),
                 ("secret", &["min", "long"]),
                 ("issuer", &["none", "ascii", "unicode"]),
@@ -661,7 +664,7 @@ fn schema() -> Vec<Entry> {
             "protobuf",
             &[
                 ("changes", NUM3),
-                ("tracked", &["empty", "full"]),
+                ("tracked", &["empty", "full", "folders3"]),
                 ("external_files", N013),
             ],
         ),
@@ -714,7 +717,7 @@ fn schema() -> Vec<Entry> {
                 ("account_id", KEY3),
                 ("connection_id", TEXT4),
                 ("root", HASH2),
-                ("outcome", &["empty", "full", "external_files"]),
+                ("outcome", &["empty", "full", "external_files", "folders3"]),
             ],
         ),
         ent("ExternalFile", "protobuf", &[("ids", ID3), ("name", KEY3)]),
@@ -881,11 +884,16 @@ impl D {
     /// Choices of another schema entry: the second choice of every
     /// dimension (a typical value), overridden by `over`.
     fn typical(ty: &str, over: &[(&str, &str)]) -> D {
-        let entry = schema().into_iter().find(|e| e.name == ty).unwrap();
+        static SCHEMA: std::sync::OnceLock<Vec<Entry>> = std::sync::OnceLock::new();
+        let entry = SCHEMA
+            .get_or_init(schema)
+            .iter()
+            .find(|e| e.name == ty)
+            .unwrap_or_else(|| panic!("harness: no schema entry {ty}"));
         let mut m = BTreeMap::new();
-        for (d, c) in entry.dims {
+        for (d, c) in &entry.dims {
             let pick = c.get(1).unwrap_or(&c[0]).clone();
-            m.insert(d, pick);
+            m.insert(d.clone(), pick);
         }
         for (k, v) in over {
             m.insert(k.to_string(), v.to_string());
@@ -1469,16 +1477,27 @@ same_proj!(DeviceEvent, |e: &DeviceEvent| match e {
 same_proj!(Origin, |o: &Origin| json!({"name": o.name(), "url": o.url().to_string()}));
 // `external_files` "must never be serialized over the wire" (documented):
 // compared without it
-fn p_outcome(o: &MergeOutcome) -> Value {
-    json!({"changes": o.changes, "tracked": format!("{:?}", o.tracked)})
+impl Same for MergeOutcome {
+    fn diff(&self, other: &Self) -> Option<String> {
+        if self.changes != other.changes {
+            return Some(format!(".changes: decoded {} vs original {}", self.changes, other.changes));
+        }
+        self.tracked.diff(&other.tracked).map(|d| format!(".tracked {d}"))
+    }
 }
-same_proj!(MergeOutcome, p_outcome);
-same_proj!(NetworkChangeEvent, |e: &NetworkChangeEvent| json!({
-    "account_id": e.account_id().to_string(),
-    "connection_id": e.connection_id(),
-    "root": e.root().to_string(),
-    "outcome": p_outcome(e.outcome()),
-}));
+impl Same for NetworkChangeEvent {
+    fn diff(&self, other: &Self) -> Option<String> {
+        let head = |e: &NetworkChangeEvent| {
+            json!({
+                "account_id": e.account_id().to_string(),
+                "connection_id": e.connection_id(),
+                "root": e.root().to_string(),
+            })
+        };
+        json_diff(&head(self), &head(other), "")
+            .or_else(|| self.outcome().diff(other.outcome()).map(|d| format!(".outcome{d}")))
+    }
+}
 
 // ---------------------------------------------------------------------
 // checks
@@ -1525,7 +1544,14 @@ fn builder_check<T: Same>(v1: &T, v2: &T) -> Result<()> {
     Ok(())
 }
 
-async fn bin_check<T>(v1: T, v2: T) -> Result<Vec<Check>>
+/// Members backed by `HashMap` / `HashSet` get a fresh random iteration
+/// order per instance, so a single comparison would agree by chance (one
+/// in six for three elements): the determinism check compares with
+/// `EXTRA` further independent builds and the canonical check re-encodes
+/// `1 + EXTRA` independent decodings; both stop at the first difference.
+const EXTRA: usize = 4;
+
+async fn bin_check<T>(v1: T, v2: T, more: Vec<T>) -> Result<Vec<Check>>
 where
     T: Encodable + Decodable + Default + Same + Send + Sync,
 {
@@ -1544,36 +1570,59 @@ where
                 None => pass("roundtrip"),
                 Some(x) => fail("roundtrip", format!("decoded value differs {x}")),
             });
-            match encode(&d).await {
-                Ok(e3) => cs.push(bytes_check(
+            let mut canonical = match encode(&d).await {
+                Ok(e3) => bytes_check(
                     "canonical",
                     "encode(decode(encode(v))) vs encode(v)",
                     &e3,
                     &e1,
-                )),
-                Err(e) => cs.push(fail("canonical", format!("re-encode failed: {e}"))),
+                ),
+                Err(e) => fail("canonical", format!("re-encode failed: {e}")),
+            };
+            for _ in 0..EXTRA {
+                if !canonical.ok {
+                    break;
+                }
+                if let Ok(again) = decode::<T>(&e1).await {
+                    if let Ok(e3) = encode(&again).await {
+                        canonical = bytes_check(
+                            "canonical",
+                            "encode(decode(encode(v))) vs encode(v)",
+                            &e3,
+                            &e1,
+                        );
+                    }
+                }
             }
+            cs.push(canonical);
         }
         Err(e) => cs.push(fail(
             "roundtrip",
             format!("decode of {} encoded bytes failed: {e}", e1.len()),
         )),
     }
-    match encode(&v2).await {
-        Ok(e2) => cs.push(bytes_check(
-            "determinism",
-            "encodings of two equal values",
-            &e1,
-            &e2,
-        )),
-        Err(e) => cs.push(fail("determinism", format!("encode of v2 failed: {e}"))),
+    let mut determinism = pass("determinism");
+    for v in std::iter::once(&v2).chain(more.iter()) {
+        determinism = match encode(v).await {
+            Ok(e2) => bytes_check(
+                "determinism",
+                "encodings of two equal values",
+                &e1,
+                &e2,
+            ),
+            Err(e) => fail("determinism", format!("encode of v2 failed: {e}")),
+        };
+        if !determinism.ok {
+            break;
+        }
     }
+    cs.push(determinism);
     Ok(cs)
 }
 
 /// `reference` is a third build (or a clone) of `v1`: encoding consumes
 /// the value.
-async fn wire_check<T>(v1: T, reference: T, v2: T) -> Result<Vec<Check>>
+async fn wire_check<T>(v1: T, reference: T, v2: T, more: Vec<T>) -> Result<Vec<Check>>
 where
     T: WireEncodeDecode + Same,
 {
@@ -1593,30 +1642,53 @@ where
                 None => pass("roundtrip"),
                 Some(x) => fail("roundtrip", format!("decoded value differs {x}")),
             });
-            match d.encode().await {
-                Ok(e3) => cs.push(bytes_check(
+            let mut canonical = match d.encode().await {
+                Ok(e3) => bytes_check(
                     "canonical",
                     "encode(decode(encode(v))) vs encode(v)",
                     &e3,
                     &e1,
-                )),
-                Err(e) => cs.push(fail("canonical", format!("re-encode failed: {e}"))),
+                ),
+                Err(e) => fail("canonical", format!("re-encode failed: {e}")),
+            };
+            for _ in 0..EXTRA {
+                if !canonical.ok {
+                    break;
+                }
+                if let Ok(again) = T::decode(bytes::Bytes::from(e1.clone())).await {
+                    if let Ok(e3) = again.encode().await {
+                        canonical = bytes_check(
+                            "canonical",
+                            "encode(decode(encode(v))) vs encode(v)",
+                            &e3,
+                            &e1,
+                        );
+                    }
+                }
             }
+            cs.push(canonical);
         }
         Err(e) => cs.push(fail(
             "roundtrip",
             format!("decode of {} encoded bytes failed: {e}", e1.len()),
         )),
     }
-    match v2.encode().await {
-        Ok(e2) => cs.push(bytes_check(
-            "determinism",
-            "encodings of two equal values",
-            &e1,
-            &e2,
-        )),
-        Err(e) => cs.push(fail("determinism", format!("encode of v2 failed: {e}"))),
+    let mut determinism = pass("determinism");
+    for v in std::iter::once(v2).chain(more.into_iter()) {
+        determinism = match v.encode().await {
+            Ok(e2) => bytes_check(
+                "determinism",
+                "encodings of two equal values",
+                &e1,
+                &e2,
+            ),
+            Err(e) => fail("determinism", format!("encode of v2 failed: {e}")),
+        };
+        if !determinism.ok {
+            break;
+        }
     }
+    cs.push(determinism);
     Ok(cs)
 }
 
@@ -1625,7 +1697,11 @@ macro_rules! bin {
     ($b:expr) => {{
         let v1 = $b;
         let v2 = $b;
-        bin_check(v1, v2).await
+        let mut more = Vec::new();
+        for _ in 0..EXTRA {
+            more.push($b);
+        }
+        bin_check(v1, v2, more).await
     }};
 }
 
@@ -1634,7 +1710,11 @@ macro_rules! wire {
         let v1 = $b;
         let r = $b;
         let v2 = $b;
-        wire_check(v1, r, v2).await
+        let mut more = Vec::new();
+        for _ in 0..EXTRA {
+            more.push($b);
+        }
+        wire_check(v1, r, v2, more).await
     }};
 }
 
@@ -1668,7 +1748,9 @@ fn tag_set(n: usize, tag: &str) -> Result<std::collections::HashSet<String>> {
 
 fn rich_meta(kind: SecretType, tag: &str) -> Result<SecretMeta> {
     let mut m = plain_meta(text("unicode", &format!("{tag}:label"))?, kind)?;
-    m.set_tags(tag_set(3, tag)?);
+    // one tag only: the iteration order of several tags is the subject of
+    // the SecretMeta entries and must not leak into every other type
+    m.set_tags(tag_set(1, tag)?);
     m.set_favorite(true);
     m.set_urn(Some(format!("urn:sos:vault:{}", uidp(tag)).parse()?));
     m.set_owner_id(Some(text("unicode", &format!("{tag}:owner"))?));
@@ -2579,10 +2661,12 @@ fn tracked(identity: usize, account: usize, device: usize, files: usize, folders
 fn outcome(class: &str, tag: &str) -> Result<MergeOutcome> {
     Ok(match class {
         "empty" => MergeOutcome::default(),
-        "full" | "external_files" => MergeOutcome {
+        // one folder only: the order of several folders (a HashMap) is the
+        // subject of the TrackedChanges entry and of "folders3"
+        "full" | "external_files" | "folders3" => MergeOutcome {
             changes: 7,
-            tracked: tracked(3, 3, 2, 3, 3, 3, tag)?,
-            external_files: external_files(if class == "full" { 0 } else { 3 }, tag),
+            tracked: tracked(3, 3, 2, 3, if class == "folders3" { 3 } else { 1 }, 3, tag)?,
+            external_files: external_files(if class == "external_files" { 3 } else { 0 }, tag),
         },
         _ => bail!("unknown outcome class {class}"),
     })
@@ -2823,10 +2907,10 @@ async fn run_one(ctx: Arc<Ctx>, d: D) -> Result<Vec<Check>> {
         "SyncPacket" => wire!(sync_packet(d, tag)?),
         "MergeOutcome" => wire!(MergeOutcome {
             changes: num64(d.s("changes"))?,
-            tracked: if d.s("tracked") == "empty" {
-                TrackedChanges::default()
-            } else {
-                tracked(3, 3, 2, 3, 3, 3, tag)?
+            tracked: match d.s("tracked") {
+                "empty" => TrackedChanges::default(),
+                "full" => tracked(3, 3, 2, 3, 1, 3, tag)?,
+                _ => tracked(3, 3, 2, 3, 3, 3, tag)?,
             },
             external_files: external_files(d.n("external_files", 0)?, tag),
         }),
